@@ -1,5 +1,6 @@
 import Tahoe.Immutable.FetchLemmasC46
 import Tahoe.Immutable.SegLemmas
+import Tahoe.Immutable.SysLemmas
 /-! C46 — immutable reads always terminate (property theorems over the DownloadNode segment queue
 `Tahoe.Fetch.Node` on top of the SegmentFetcher event system; helper lemmas in
 `Tahoe/Immutable/FetchLemmas*.lean`).
@@ -18,7 +19,7 @@ The theorems are about the code with `fixes/C46-active-segment.diff` applied (`N
 
 | clause of the statement | covered by |
 |---|---|
-| every read eventually completes, delivering its data or an error | read layer: `read_never_idle`, `read_terminates_when_answered` (a started read that is not paused always has a request outstanding or has fired); node layer: `no_stuck_state` (every request is retired at quiescence); fetcher layer: `Struct.quiet` inside `no_stuck_state`, `do_loop_terminates`.  Composition of the layers (Deferred of a request fires ⇔ request retired) is by hand — `every_read_terminates_partial` below |
+| every read eventually completes, delivering its data or an error | read layer: `read_never_idle`, `read_terminates_when_answered` (a started read that is not paused always has a request outstanding or has fired); node layer: `no_stuck_state` (every request is retired at quiescence); fetcher layer: `Struct.quiet` inside `no_stuck_state`, `do_loop_terminates`.  composed: `every_read_terminates` (system `Sys`), `waiting_read_request_is_routed` |
 | … for any pattern of server failures, corrupted or inconsistent shares | node/fetcher theorems allow every answer for every started share in any order (`NEvOk` only forbids OVERDUE from a share that is not outstanding); decode / ciphertext-hash failures = `badSegs` in `no_stuck_state`; the mapping from server faults to share events: monitor only |
 | … late answers | OVERDUE events in the fetcher model (theorem); finder / DYHB timers: monitor only |
 | … concurrent reads on the same file object | `no_stuck_state` quantifies over any interleaving of `getSegment` requests (several per segment, several segments) and cancels; each read is its own `Seg` (`read_never_idle`) — concurrency between reads exists only through the node queue |
@@ -34,10 +35,8 @@ every `get_block` gets a terminal event (share.py not modelled; true for dead sh
 `eventually(self._deliver, …)` fires the request's Deferred exactly once (Twisted/foolscap); decode in
 the CPU thread pool is one atomic step; a consumer that pauses a read resumes it.
 
-`every_read_terminates_partial` (not stated as one theorem): "in every quiescent state of the whole
-stack every read's Deferred has fired".  Proved per layer (above).  Missing: one Lean system composing
-`Seg`s with `Node` (routing of `get_segment`/`_deliver`) and the induction that a waiting read's request
-id is in `requests ∪ retired-undelivered`.
+End to end: `every_read_terminates` (the composed system `Sys` = reads + node + the node's fetchers) and
+`waiting_read_request_is_routed`; the shares and the finder remain the environment (assumptions above).
 -/
 namespace Tahoe.C46
 open Tahoe.Fetch
@@ -196,6 +195,56 @@ theorem read_writes_exact_range (segsize guess offset size : Nat) (k0 : Bool) (e
   congr 1
   omega
 
+
+/-! ### the composed system (`Sys`: reads routed through the node) -/
+
+/-- **C46 (8), routing invariant.**  In every reachable state of the composed system a read that is
+waiting for a segment (Deferred not fired, `_active_segnum` set) holds the id of a request that is
+in the node's queue or has been retired (its `_deliver` queued or run) — requests are never lost
+between `Segmentation` and `DownloadNode`, whatever the interleaving of reads, deliveries, answers,
+cancels, pauses and failures. -/
+theorem waiting_read_request_is_routed (k numSegs : Nat) (badSegs : List Nat) (filesize segsize guess : Nat)
+    (es : List SysEv) (hv : SysValid (sysInit k numSegs badSegs filesize segsize guess) es) :
+    ∀ r ∈ (sysRun (sysInit k numSegs badSegs filesize segsize guess) es).reads,
+      r.seg.result = none → r.seg.active.isSome = true →
+      ∃ q, r.req = some q ∧
+        (q ∈ (sysRun (sysInit k numSegs badSegs filesize segsize guess) es).node.requests.map (·.2) ∨
+         q ∈ (sysRun (sysInit k numSegs badSegs filesize segsize guess) es).node.retired.map (·.1)) := by
+  intro r hr
+  exact ((sysinv_run es _ (sysinv_init _ _ _ _ _ _) hv).reads r hr).track
+
+/-- **C46 (9), end to end.**  Every history of the whole stack above the shares — any number of
+concurrent `read()` calls on one node with any ranges and any segment-size guess, share
+announcements, answers of every kind, decode failures, bad segment numbers, deliveries in any
+order, pauses, resumes, `stopProducing` — that ends with nothing pending (`SysQuiescent`: the active
+fetcher, if any, has no loop queued, was told `no_more_shares` and has no block request outstanding;
+no read has a queued turn; every retired request's `_deliver` has run) ends with every read's
+Deferred fired, except reads their own consumer is pausing. -/
+theorem every_read_terminates (k numSegs : Nat) (badSegs : List Nat) (filesize segsize guess : Nat)
+    (es : List SysEv) (hv : SysValid (sysInit k numSegs badSegs filesize segsize guess) es)
+    (hq : SysQuiescent (sysRun (sysInit k numSegs badSegs filesize segsize guess) es)) :
+    ∀ r ∈ (sysRun (sysInit k numSegs badSegs filesize segsize guess) es).reads,
+      r.seg.result.isSome = true ∨ r.seg.hungry = false := by
+  intro r hr
+  have hi := sysinv_run es _ (sysinv_init k numSegs badSegs filesize segsize guess) hv
+  obtain ⟨hnq, hturns, hdel⟩ := hq
+  have hempty := ninv_quiescent_empty hi.node hnq
+  have hri := hi.reads r hr
+  cases hres : r.seg.result with
+  | some _ => exact Or.inl rfl
+  | none =>
+    right
+    cases hh : r.seg.hungry with
+    | false => rfl
+    | true =>
+      exfalso
+      rcases (hri.live.1 hres).2 hh with hact | hturn
+      · obtain ⟨q, hq1, hin⟩ := hri.track hres hact
+        rcases hin with hin | hin
+        · rw [hempty] at hin; simp at hin
+        · exact hdel r hr q hq1 hin
+      · have := hturns r hr; omega
+
 /-! ### concrete instances -/
 
 private def sh (id shnum server rtt : Nat) : Share := { id := id, shnum := shnum, server := server, rtt := rtt }
@@ -256,5 +305,26 @@ example : (segRun (segStep (freshRead 64 1000 70 10) false .start)
 /-- a second bad answer after the retry is an error, not a hang -/
 example : (segRun (segStep (freshRead 2000 1000 2500 50) false .start)
       [(.failed .badSegnum, true), (.failed .badSegnum, true)]).result = some (some .badSegnum) := by decide
+
+
+/-- two concurrent reads of a 1-of-N, 2-segment file (segments of 16 bytes, reader guesses 5) that both
+first ask for segments that do not exist / are wrong, one server with one share -/
+private def exSys : List SysEv :=
+  [.startRead 0 20 8, .startRead 1 3 20, .node (.loop 0), .node (.gotShares [sh 0 0 0 0]), .node (.loop 0),
+   .node .uebKnown, .node (.loop 0),          -- segment 4 does not exist: BadSegmentNumber for read 0
+   .deliver 0, .node (.loop 1), .node (.share 1 (sh 0 0 0 0) .complete), .node (.loop 1),
+   .deliver 1, .node (.loop 2), .node (.share 2 (sh 0 0 0 0) .complete), .node (.loop 2),
+   .deliver 2, .deliver 3, .node (.loop 3), .node (.share 3 (sh 0 0 0 0) .complete), .node (.loop 3), .deliver 4]
+
+instance (y : Sys) : Decidable (SysQuiescent y) := by
+  unfold SysQuiescent; infer_instance
+
+example : SysValid (sysInit 1 2 [] 32 16 5) exSys := by
+  simp [SysValid, SysEvOk, NEvOk, exSys, cancelled, submitted, sysStep, findRead]
+  decide
+
+example : SysQuiescent (sysRun (sysInit 1 2 [] 32 16 5) exSys) ∧
+    (sysRun (sysInit 1 2 [] 32 16 5) exSys).reads.map (fun r => (r.rid, r.seg.result, r.seg.offset)) =
+      [(0, some none, 28), (1, some none, 23)] := by decide
 
 end Tahoe.C46
